@@ -19,6 +19,9 @@ import (
 	"net/http"
 	"os"
 	"path/filepath"
+	"runtime/pprof"
+	"strconv"
+	"time"
 
 	"verif/internal/ev"
 )
@@ -54,11 +57,22 @@ func main() {
 	run.Mandatory(mandatoryNames...)
 
 	raceSetup(run)
+	if pf := os.Getenv("C20_DEV_PROF"); pf != "" {
+		f, _ := os.Create(pf)
+		_ = pprof.StartCPUProfile(f)
+		defer pprof.StopCPUProfile()
+	}
 
-	nIso := run.N(len(provCatalogue)*len(provCatalogue)+len(cliCatalogue)*len(cliCatalogue)+150,
-		len(provCatalogue)*len(provCatalogue)+len(cliCatalogue)*len(cliCatalogue)+len(provCatalogue)*len(provCatalogue)*len(provCatalogue)+6000)
+	pp, cp, pt := isoCounts(run)
+	nIso := pp + cp + pt + run.N(90, 1500)
 	nRounds := run.N(5, 40)
 
+	if v, err := strconv.Atoi(os.Getenv("C20_DEV_ISO")); err == nil {
+		nIso = v
+	}
+	if v, err := strconv.Atoi(os.Getenv("C20_DEV_ROUNDS")); err == nil {
+		nRounds = v
+	}
 	if rc := run.ReplayCase(); rc >= 0 {
 		writeInflight(run, int(rc))
 		if rc >= roundBase {
@@ -76,10 +90,17 @@ func main() {
 		run.Finish()
 	}
 
+	t0 := time.Now()
 	for i := 0; i < nIso; i++ {
 		writeInflight(run, i)
-		runScenario(run, i, scenarioSpecs(run, i))
+		// every scenario in a goroutine of its own (a recovered library panic garbles the race detector's shadow
+		// stack of the goroutine it happened in)
+		done := make(chan struct{})
+		go func() { defer close(done); runScenario(run, i, scenarioSpecs(run, i)) }()
+		<-done
 	}
+	run.Extra("wall_s_isolation_part", time.Since(t0).Seconds())
+	t0 = time.Now()
 	mux.Reset()
 	restoreGlobals()
 	for r := 0; r < nRounds; r++ {
@@ -87,8 +108,10 @@ func main() {
 		runRound(run, r)
 		restoreGlobals()
 	}
+	run.Extra("wall_s_concurrent_part", time.Since(t0).Seconds())
 	raceCollect(run, false)
 	_ = os.Remove(filepath.Join(ev.Out, "replay", "C20.inflight.json"))
 	fmt.Printf("C20: %d isolation scenarios, %d concurrent rounds\n", nIso, nRounds)
+	pprof.StopCPUProfile()
 	run.Finish()
 }
